@@ -2,6 +2,7 @@ package checks
 
 import (
 	"fmt"
+	"strings"
 
 	"vharness/internal/spec"
 )
@@ -93,6 +94,7 @@ func twinConfigs(name string, altAliases bool) *spec.Spec {
 // sameNamedPackages: providers and types from sibling packages that share
 // one package name, each referenced several times, spread over both wire files.
 func sameNamedPackages(name string) *spec.Spec {
+	forWire := strings.HasPrefix(name, "k13") || strings.HasPrefix(name, "k14")
 	b := newBuilder(name)
 	u := b.ext("users/config", "config", "")
 	o := b.ext("orders/config", "config", "ordersconfig")
@@ -109,6 +111,10 @@ func sameNamedPackages(name string) *spec.Spec {
 	app := b.ptr(b.strct("App", ""))
 	provs = append(provs, b.fn("NewApp", "", params, []int{app}, false, false))
 	b.inject("InitializeApp", app, provs...)
+	if !forWire {
+		// nobody supplies the settings here: six arguments, one per package and type
+		b.inject("BuildAppFromArguments", app, provs[len(provs)-1])
+	}
 	b.s.WireAltAliases = true
 	b.s.WireAllInSets = true
 	b.s.Features = append(b.s.Features, "same-named-packages-referenced-repeatedly")
@@ -626,6 +632,82 @@ func structOfSameNamedPackage(name string) *spec.Spec {
 	return b.s
 }
 
+// resultTypeShapes: one injector per kind of requested type, each with two
+// Async providers one of which can fail, so that the goroutine error branch
+// (zero value + error) is emitted for arrays, named arrays, struct values,
+// named basics, anonymous structs, maps, funcs and slices alike.
+func resultTypeShapes(name string) *spec.Spec {
+	b := newBuilder(name)
+	el := b.strct("Digest", "")
+	kinds := []int{
+		b.typ(&spec.Type{Kind: spec.KArray, Base: el}),
+		el,
+		b.nint("Count", ""),
+		b.nstr("Label", ""),
+		b.typ(&spec.Type{Kind: spec.KAnon, Name: "HShape"}),
+		b.typ(&spec.Type{Kind: spec.KMap, Base: el}),
+		b.typ(&spec.Type{Kind: spec.KFunc, Base: el}),
+		b.typ(&spec.Type{Kind: spec.KSlice, Base: el}),
+		b.ptr(el),
+	}
+	for k, t := range kinds {
+		a := b.ptr(b.strct(fmt.Sprintf("SourceA%d", k), ""))
+		c := b.ptr(b.strct(fmt.Sprintf("SourceB%d", k), ""))
+		p1 := b.fn(fmt.Sprintf("OpenA%d", k), "", nil, []int{a}, true, true)
+		p2 := b.fn(fmt.Sprintf("OpenB%d", k), "", nil, []int{c}, true, false)
+		p3 := b.fn(fmt.Sprintf("Combine%d", k), "", []int{a, c}, []int{t}, true, k%2 == 0)
+		b.inject(fmt.Sprintf("Initialize%d", k), t, p1, p2, p3)
+	}
+	b.s.Features = append(b.s.Features, "every-kind-of-requested-type-behind-goroutines-that-can-fail")
+	return b.s
+}
+
+// crossFileNames: two declaration files generated by separate runs. The
+// output of the second (goroutines: imports context and errgroup, declares
+// eg/ctx locals) must not influence the names chosen for the first, whose user
+// types are called Context and Errgroup.
+func crossFileNames(name string) *spec.Spec {
+	b := newBuilder(name)
+	b.s.Files = []string{"kessoku.go", "wiring1.go"}
+	cx := b.ptr(b.strct("Context", ""))
+	eg := b.ptr(b.strct("Errgroup", ""))
+	app := b.ptr(b.strct("App", ""))
+	p1 := b.fn("NewContext", "", nil, []int{cx}, false, false)
+	p2 := b.fn("NewErrgroup", "", []int{cx}, []int{eg}, false, true)
+	p3 := b.fn("NewApp", "", []int{cx, eg}, []int{app}, false, false)
+	b.inject("InitializeApp", app, p1, p2, p3)
+	w1 := b.ptr(b.strct("Worker", ""))
+	w2 := b.ptr(b.strct("Queue", ""))
+	svc := b.ptr(b.strct("Service", ""))
+	p4 := b.fn("NewWorker", "", nil, []int{w1}, true, true)
+	p5 := b.fn("NewQueue", "", nil, []int{w2}, true, false)
+	p6 := b.fn("NewService", "", []int{w1, w2}, []int{svc}, true, false)
+	b.inject("InitializeService", svc, p4, p5, p6)
+	b.s.Injectors[1].File = 1
+	b.s.InvMode = "per"
+	b.s.Features = append(b.s.Features, "names-of-one-file-colliding-with-imports-of-another-files-output")
+	return b.s
+}
+
+// sameNamedArguments: nobody supplies the settings types of three sibling
+// packages that share their package name AND their type names: the injector
+// takes six arguments, one per (package, type).
+func sameNamedArguments(name string) *spec.Spec {
+	b := newBuilder(name)
+	b.s.Dynamic = false
+	var params []int
+	for _, d := range []string{b.ext("users/config", "config", ""), b.ext("orders/config", "config", "ordersconfig"), b.ext("items/config", "config", "itemsconfig")} {
+		for k := 0; k < 2; k++ {
+			params = append(params, b.ptr(b.strct(fmt.Sprintf("Settings%d", k), d)))
+		}
+	}
+	app := b.ptr(b.strct("App", ""))
+	p := b.fn("NewApp", "", params, []int{app}, false, false)
+	b.inject("BuildAppFromArguments", app, p)
+	b.s.Features = append(b.s.Features, "same-named-types-of-same-named-packages-as-arguments")
+	return b.s
+}
+
 // injectorNameForms: declarations whose injector name cannot become a
 // package-level function: used twice in one file (0) or in two files of one
 // package (4), equal to a function the user wrote (1), a keyword (2), not an
@@ -714,6 +796,7 @@ func corpusSpecs(prop string) []*spec.Spec {
 		fs = append(fs, foreignCompositeKeys("kc"+prop[1:]+"s", false), foreignCompositeKeys("kc"+prop[1:]+"a", true))
 		fs = append(fs, spelledTwoWays("kt"+prop[1:]+"s", false), spelledTwoWays("kt"+prop[1:]+"a", true))
 		fs = append(fs, unicodeTypeNames("ku"+prop[1:]+"s", false), unicodeTypeNames("ku"+prop[1:]+"a", true))
+		fs = append(fs, resultTypeShapes("kr"+prop[1:]))
 		fs = append(fs, sharedSetAliasedImport("kh"+prop[1:]+"s", false), sharedSetAliasedImport("kh"+prop[1:]+"a", true))
 		fs = append(fs, dotImported("kd"+prop[1:]+"s", false), dotImported("kd"+prop[1:]+"a", true))
 		fs = append(fs, bindVariadic("kb"+prop[1:]+"s", false, false), bindVariadic("kb"+prop[1:]+"a", true, false), bindVariadic("kb"+prop[1:]+"t", false, true), bindVariadic("kb"+prop[1:]+"b", true, true))
@@ -727,7 +810,7 @@ func corpusSpecs(prop string) []*spec.Spec {
 		}
 		return allInvocationModes(append(fs, append([]*spec.Spec{twinConfigs("k"+prop[1:]+"a", false), sameNamedPackages("k" + prop[1:] + "c"), foreignAliasSecondFile("k" + prop[1:] + "f")}, keywordSweepSpecs("kw"+prop[1:])...)...))
 	case "C09":
-		return []*spec.Spec{spelledTwoWays("kt09s", false), spelledTwoWays("kt09a", true), suffixNamedFiles("kz09s", false), suffixNamedFiles("kz09a", true), aliasDeclaredFields("ka09s", false), aliasDeclaredFields("ka09a", true), setReferenceForms("ks09p", 0, false), setReferenceForms("ks09q", 0, true), setReferenceForms("ks09x", 1, false), setReferenceForms("ks09y", 1, true)}
+		return []*spec.Spec{sameNamedPackages("k09c"), twinConfigs("k09a", false), spelledTwoWays("kt09s", false), spelledTwoWays("kt09a", true), suffixNamedFiles("kz09s", false), suffixNamedFiles("kz09a", true), aliasDeclaredFields("ka09s", false), aliasDeclaredFields("ka09a", true), setReferenceForms("ks09p", 0, false), setReferenceForms("ks09q", 0, true), setReferenceForms("ks09x", 1, false), setReferenceForms("ks09y", 1, true)}
 	case "C02", "C01", "C10", "C11":
 		var fs []*spec.Spec
 		if prop == "C02" || prop == "C01" || prop == "C10" {
@@ -742,9 +825,14 @@ func corpusSpecs(prop string) []*spec.Spec {
 		}
 		if prop == "C11" {
 			fs = append(fs, suffixNamedFiles("kz11s", false), suffixNamedFiles("kz11a", true))
+			fs = append(fs, crossFileNames("kx11"))
+		}
+		if prop == "C01" || prop == "C02" {
+			fs = append(fs, resultTypeShapes("kr"+prop[1:]))
 		}
 		if prop == "C10" {
 			fs = append(fs, spelledTwoWays("kt10s", false), spelledTwoWays("kt10a", true))
+			fs = append(fs, sameNamedArguments("kn10"))
 		}
 		if prop == "C10" || prop == "C11" {
 			for k := 0; k < 4; k++ {
